@@ -19,41 +19,42 @@ Cfgs(hostseqs, pols, outs, ks, idems, cancels) ==
 \* every host pattern, k = 2 on three of them; cancellation on two patterns with all outcome classes
 Pols012 == {PolNone} \cup {PolBudget(n) : n \in 0 .. 2}
 CfgQuick ==
-  Cfgs(HostSeqs(3, {"ok", "noconn"}), Pols012, CoreOuts, {0, 1}, BOOLEAN, {FALSE})
-  \cup Cfgs({<<"ok", "ok">>, <<"ok", "ok", "ok">>, <<"ok", "noconn", "ok">>}, Pols012, CoreOuts, {2}, BOOLEAN, {FALSE})
-  \cup Cfgs({<<"ok", "ok">>, <<"ok", "noconn", "ok">>}, {PolBudget(1), PolScript({2})}, ScriptOuts, {0, 1}, BOOLEAN, {TRUE})
+  Cfgs(HostSeqs(3, {"ok", "noconn"}), Pols012, CoreOuts, {0, 1}, BOOLEAN, {"none"})
+  \cup Cfgs({<<"ok", "ok">>, <<"ok", "ok", "ok">>, <<"ok", "noconn", "ok">>}, Pols012, CoreOuts, {2}, BOOLEAN, {"none"})
+  \cup Cfgs({<<"ok", "ok">>, <<"ok", "noconn", "ok">>}, {PolBudget(1), PolScript({2})}, ScriptOuts, {0, 1}, BOOLEAN, {"cancel", "deadline"})
 \* thorough: all outcome classes, non-monotone budgets, 4 hosts, cancellation everywhere
 CfgThA == Cfgs(HostSeqs(3, {"ok", "noconn"}), Pols012 \cup {PolScript({2})},
-               ScriptOuts, 0 .. 2, BOOLEAN, {FALSE})
-CfgThB == Cfgs({<<"ok", "ok", "ok", "ok">>}, {PolBudget(2), PolScript({1, 3})}, CoreOuts, {2}, {TRUE}, {FALSE})
-          \cup Cfgs({<<"ok", "noconn", "ok", "ok">>}, {PolBudget(2)}, CoreOuts, {2}, {TRUE}, {FALSE})
+               ScriptOuts, 0 .. 2, BOOLEAN, {"none"})
+CfgThB == Cfgs({<<"ok", "ok", "ok", "ok">>}, {PolBudget(2), PolScript({1, 3})}, CoreOuts, {2}, {TRUE}, {"none"})
+          \cup Cfgs({<<"ok", "noconn", "ok", "ok">>}, {PolBudget(2)}, CoreOuts, {2}, {TRUE}, {"none"})
 CfgThC == Cfgs(HostSeqs(2, {"ok", "noconn"}) \cup {<<"ok", "ok", "ok">>}, {PolNone, PolBudget(1), PolBudget(2)},
-               CoreOuts, 0 .. 2, BOOLEAN, {TRUE})
+               CoreOuts, 0 .. 2, BOOLEAN, {"cancel", "deadline"})
 CfgThorough == CfgThA \cup CfgThB \cup CfgThC
 \* the instance DESIGN.md measured: 4 hosts, budget 2, k = 2
-CfgWitness == Cfgs({<<"ok", "ok", "ok", "ok">>}, {PolBudget(2)}, {"ok", "e_retry", "e_next"}, {2}, {TRUE}, {FALSE})
+CfgWitness == Cfgs({<<"ok", "ok", "ok", "ok">>}, {PolBudget(2)}, {"ok", "e_retry", "e_next"}, {2}, {TRUE}, {"none"})
 \* liveness (small)
-CfgLive == Cfgs({<<>>, <<"ok">>, <<"noconn", "ok">>, <<"ok", "ok">>}, {PolNone, PolBudget(1)}, {"ok", "e_retry", "e_next"}, {0, 1}, BOOLEAN, BOOLEAN)
+CfgLive == Cfgs({<<>>, <<"ok">>, <<"noconn", "ok">>, <<"ok", "ok">>}, {PolNone, PolBudget(1)}, {"ok", "e_retry", "e_next"}, {0, 1}, BOOLEAN, {"none", "cancel", "deadline"})
 
 \* ---- behaviour dumps (KeepHist = TRUE): one line per complete behaviour
 \* sequential: no speculation (k = 0 or not idempotent); deterministic up to the environment
 CfgSeq ==
-  Cfgs(HostSeqs(3, {"ok", "noconn"}), {PolNone} \cup {PolBudget(n) : n \in 0 .. 2} \cup {PolScript({2})}, ScriptOuts, {0}, BOOLEAN, {FALSE})
-  \cup Cfgs(HostSeqs(2, {"ok", "down", "nopool"}), {PolBudget(1)}, CoreOuts, {1}, {FALSE}, {FALSE})
-  \cup Cfgs({<<"ok", "ok">>, <<"noconn", "ok", "ok">>}, {PolNone, PolBudget(1), PolBudget(2)}, CoreOuts, {0}, BOOLEAN, {TRUE})
+  Cfgs(HostSeqs(3, {"ok", "noconn"}), {PolNone} \cup {PolBudget(n) : n \in 0 .. 2} \cup {PolScript({2})}, ScriptOuts, {0}, BOOLEAN, {"none"})
+  \cup Cfgs(HostSeqs(2, {"ok", "down", "nopool"}), {PolBudget(1)}, CoreOuts, {1}, {FALSE}, {"none"})
+  \cup Cfgs({<<"ok", "ok", "ok">>}, {PolBudget(2)}, CoreOuts, {1, 2}, {FALSE}, {"none", "deadline"})
+  \cup Cfgs({<<"ok", "ok">>, <<"noconn", "ok", "ok">>}, {PolNone, PolBudget(1), PolBudget(2)}, CoreOuts, {0}, BOOLEAN, {"cancel", "deadline"})
 CfgSeqThorough ==
   CfgSeq
-  \cup Cfgs(HostSeqs(4, {"ok", "noconn"}), {PolBudget(n) : n \in 0 .. 3} \cup {PolScript({1, 3})}, ScriptOuts, {0}, BOOLEAN, {FALSE})
+  \cup Cfgs(HostSeqs(4, {"ok", "noconn"}), {PolBudget(n) : n \in 0 .. 3} \cup {PolScript({1, 3})}, ScriptOuts, {0}, BOOLEAN, {"none"})
 \* concurrent (simulation walks): idempotent, k >= 1
 CfgConc ==
   Cfgs({<<"ok", "ok">>, <<"ok", "ok", "ok">>, <<"ok", "noconn", "ok", "ok">>, <<"ok", "ok", "ok", "ok">>},
-       {PolNone, PolBudget(0), PolBudget(1), PolBudget(2), PolScript({2})}, ScriptOuts, {1, 2}, {TRUE}, BOOLEAN)
+       {PolNone, PolBudget(0), PolBudget(1), PolBudget(2), PolScript({2})}, ScriptOuts, {1, 2}, {TRUE}, {"none", "cancel", "deadline"})
 
 \* concurrent, exhaustive (every GateAtomic behaviour of small instances)
 CfgConcEx ==
-  Cfgs({<<"ok", "ok">>, <<"ok", "noconn", "ok">>}, {PolNone, PolBudget(1)}, {"ok", "e_retry", "e_next"}, {1}, {TRUE}, {FALSE})
-  \cup Cfgs({<<"ok", "ok", "ok">>}, {PolBudget(0)}, {"ok", "e_next"}, {2}, {TRUE}, {FALSE})
-  \cup Cfgs({<<"ok", "ok">>}, {PolBudget(1)}, {"ok", "e_next"}, {1}, {TRUE}, {TRUE})
+  Cfgs({<<"ok", "ok">>, <<"ok", "noconn", "ok">>}, {PolNone, PolBudget(1)}, {"ok", "e_retry", "e_next"}, {1}, {TRUE}, {"none"})
+  \cup Cfgs({<<"ok", "ok", "ok">>}, {PolBudget(0)}, {"ok", "e_next"}, {2}, {TRUE}, {"none"})
+  \cup Cfgs({<<"ok", "ok">>}, {PolBudget(1)}, {"ok", "e_next"}, {1}, {TRUE}, {"cancel", "deadline"})
 
 SeqOf(S) == LET RECURSIVE F(_) F(X) == IF X = {} THEN <<>> ELSE
               LET m == CHOOSE x \in X : \A y \in X : x <= y IN <<m>> \o F(X \ {m}) IN F(S)
